@@ -873,7 +873,9 @@ class Interp:
             elif isinstance(node.op, ast.UAdd):
                 yield st1, v
             else:
-                raise Unsupported("unary ~ (bit operations are outside the mathematical-integer subset)")
+                from . import ops as _ops
+
+                yield st1, _ops.invert(self, st1, v)
 
     def ev_BinOp(self, node, st):
         for st1, vs in self.ev_many([node.left, node.right], st):
